@@ -336,14 +336,14 @@ func evConstBool(v ssa.Value) int {
 
 func checkC06(c *Ctx) {
 	r, p := c.R, c.P
-	r.Explanation = "Decides structural necessary conditions of C06 on events/queue, over the events of the mechanism along every path of the exported entry points and of the loop goroutine with all same-package helpers inlined (constructs resolved by role, not by unexported name): (Q1) the queue field of Processor is only used with the Processor mutex held; (Q2) atomic exit: on every path of the loop goroutine, between observing the queue empty (Peek's ok result false) under the lock and giving up the running token the lock is never released — otherwise an Enqueue in that window finds the loop 'still running' and its item is stranded — and every exit gives the token up exactly once; (Q3) an item is popped only in the critical section in which the head was re-checked to be the very item the loop decided on (object identity), and the callback receives the popped value; (Q4) Close waits for the loop goroutine on every path and, on the path that wins the stopped flag, closes the stop channel and then takes the running token; the loop goroutine is started only on a path that took the token, after wg.Add, and calls wg.Done on every exit; (Q5) the item popped is one established due: on a branch that bounds ScheduledTime().Sub(clock.Now()) by at most 500µs — written on the Duration itself, through its Nanoseconds/Microseconds/Milliseconds/Seconds/Minutes/Hours accessors, int64(d) or d/unit (truncation accounted for: d.Milliseconds() < 1 admits 999999 ns), or as Before/After against clock.Now().Add(K) — or after the timer armed with that same duration fired; (Q6) Enqueue inserts with replace=true and on every path attempts to take the token (start the loop) under the lock afterwards; when the token is not available a reset signal can be posted; (Q7) the heap orders by scheduled time ascending; (Q8) the token/reset channels have one slot, and a received reset leads to a fresh Peek before anything is armed, popped or executed; every wait on the item's timer also listens for the reset signal. NOT decided: exactly-once / ordering over all histories, timer accuracy, that the head-changed flag is computed correctly."
+	r.Explanation = "Decides structural necessary conditions of C06 on events/queue, over the events of the mechanism along every path of the exported entry points and of the loop goroutine with all same-package helpers inlined (constructs resolved by role, not by unexported name): (Q1) the queue field of Processor is only used with the Processor mutex held; (Q2) atomic exit: on every path of the loop goroutine, between observing the queue empty (Peek's ok result false) under the lock and giving up the running token the lock is never released — otherwise an Enqueue in that window finds the loop 'still running' and its item is stranded — and every exit gives the token up exactly once; (Q3) an item is popped only in the critical section in which the head was re-checked to be the very item the loop decided on (object identity), and the callback receives the popped value; (Q4) Close waits for the loop goroutine on every path and, on the path that wins the stopped flag, closes the stop channel and then takes the running token; the loop goroutine is started only on a path that took the token, after wg.Add, and calls wg.Done on every exit; (Q5) the item popped is one established due: on a branch that bounds ScheduledTime().Sub(clock.Now()) by at most 500µs — written on the Duration itself, through its Nanoseconds/Microseconds/Milliseconds/Seconds/Minutes/Hours accessors, int64(d) or d/unit (truncation accounted for: d.Milliseconds() < 1 admits 999999 ns), or as Before/After against clock.Now().Add(K) — or after the timer armed with that same duration fired; (Q6) Enqueue inserts with replace=true and on every path attempts to take the token (start the loop) under the lock afterwards; when the token is not available a reset signal can be posted, and a path that posts none has, after the insert and still under the lock, peeked the head and found it is not the inserted item (object identity; evidence of another kind about the item — its scheduled time, an opaque predicate — leaves this undecided); (Q7) the heap orders by scheduled time ascending through a comparison that is order-isomorphic to the instant (Before/After/Compare/Sub/UnixNano; the truncating Unix/UnixMilli/UnixMicro are reported); (Q8) the token/reset channels have one slot, and a received reset leads to a fresh Peek before anything is armed, popped or executed; every wait on the item's timer also listens for the reset signal. NOT decided: exactly-once / ordering over all histories, timer accuracy, Dequeue's head-change signalling."
 	r.Assumptions = append(r.Assumptions, "type-based lock and channel identity", "container/heap implements a min-heap over Less", "helpers are followed through static calls, defer and go of functions of the same package; function values stored in variables are not followed")
 	r.Rule("C06.Q1-guard", "the Processor's queue only under the Processor's mutex", 3)
 	r.Rule("C06.Q2-atomic-exit", "no unlock between 'queue empty' and release of the running token; token released exactly once per exit", 2)
 	r.Rule("C06.Q3-execute", "Pop in the same critical section as the head re-check; callback gets the popped value", 2)
 	r.Rule("C06.Q4-close", "Close: wg.Wait on all paths; close(stop)+token on the winning path; loop goroutine tracked and started only with the token", 3)
 	r.Rule("C06.Q5-not-early", "an item is run only when due within <=500µs or after the timer for that item fired", 2)
-	r.Rule("C06.Q6-enqueue", "Enqueue inserts with replace=true and always tries to start the loop under the lock; reset signal when already running", 3)
+	r.Rule("C06.Q6-enqueue", "Enqueue inserts with replace=true and always tries to start the loop under the lock; reset signal when already running, omitted only after seeing that the head after the insert is another item", 4)
 	r.Rule("C06.Q8-signals", "reset/running tokens are 1-slot channels; every reset received by the loop leads to a fresh Peek before anything is armed or executed", 4)
 	r.Rule("C06.Q7-order", "heap Less = scheduled time ascending", 1)
 
@@ -1191,6 +1191,10 @@ type q6State struct {
 	attempted bool  // tried to take the token under the lock after the insert
 	acq       uint8 // 0 no attempt | 1 token taken | 2 token not available | 3 attempted, outcome not branched on
 	reset     bool  // reset signal posted after finding the token unavailable
+	item      evVal // the inserted item
+	postPeek  evVal // (frame, peek call) of the last peek after the insert, under the lock
+	notHead   bool  // the head observed after the insert was found not to be the inserted item
+	otherEv   bool  // a branch after the insert used other evidence about the item (its scheduled time, an opaque predicate)
 }
 
 func c06Enqueue(c *Ctx, ro *c06Roles) {
@@ -1261,6 +1265,52 @@ func c06Enqueue(c *Ctx, ro *c06Roles) {
 					replaceBad = "Enqueue does not replace an existing item with the same key (insert at " + p.Pos(instrPos(in)) + "): the superseded value would still be executed and the new one dropped"
 				}
 				s.inserted, s.attempted, s.acq, s.reset = true, false, 0, false
+				s.item, s.postPeek, s.notHead, s.otherEv = evVal{}, evVal{}, false, false
+				if len(args) >= 2 {
+					s.item = evNormItem(cx.Resolve(args[1]))
+				}
+				return s, true
+			}
+			switch ro.op(v) {
+			case "peek":
+				if call, ok := in.(*ssa.Call); ok && s.inserted && s.held {
+					s.postPeek, s.notHead = evVal{cx.F, call}, false
+				}
+			case "pop", "remove", "update":
+				s.postPeek, s.notHead = evVal{}, false
+			}
+		}
+		return s, true
+	}
+	x.Branch = func(cx *EvCtx[q6State], ifi *ssa.If, taken bool, s q6State) (q6State, bool) {
+		if !s.inserted || s.item.IsZero() {
+			return s, true
+		}
+		key, neg := cx.CondKey(ifi.Cond)
+		val := taken != neg
+		res := evResolver(cx.ResolveIn)
+		switch kv := key.V.(type) {
+		case *ssa.BinOp:
+			if kv.Op == token.EQL || kv.Op == token.NEQ {
+				X, Y := evNormItem(res(key.F, kv.X)), evNormItem(res(key.F, kv.Y))
+				if !s.postPeek.IsZero() && ((X == s.postPeek && Y == s.item) || (Y == s.postPeek && X == s.item)) {
+					if (kv.Op == token.EQL) != val {
+						s.notHead = true // head after the insert != the inserted item
+					}
+					return s, true
+				}
+			}
+			if evInvolvesTime(res, key, 0) {
+				s.otherEv = true
+			}
+		case *ssa.Call:
+			for _, a := range kv.Call.Args {
+				if evNormItem(res(key.F, a)) == s.item {
+					s.otherEv = true
+				}
+			}
+			if evInvolvesTime(res, key, 0) {
+				s.otherEv = true
 			}
 		}
 		return s, true
@@ -1273,6 +1323,7 @@ func c06Enqueue(c *Ctx, ro *c06Roles) {
 		return s, true
 	}
 	okP, sawIns, okReset := true, false, false
+	silentBad, silentUnk := "", ""
 	for _, ex := range x.Explore(ro.t.Root(ro.enq), q6State{}) {
 		s := ex.P.abs
 		if s.inserted {
@@ -1284,6 +1335,14 @@ func c06Enqueue(c *Ctx, ro *c06Roles) {
 				sawBusy = true
 				if s.reset {
 					okReset = true
+				} else if !s.notHead {
+					// the loop is running, no reset is posted, and this path never saw that
+					// the head after the insert is some other item
+					if s.otherEv {
+						silentUnk = "Enqueue can return at " + p.Pos(instrPos(ex.Ret)) + " without posting the reset signal to a running loop, on evidence about the inserted item that is not 'the head peeked after the insert is another item' (its scheduled time or an opaque predicate): whether that excludes a head change is not decided"
+					} else {
+						silentBad = "Enqueue can return at " + p.Pos(instrPos(ex.Ret)) + " without posting the reset signal to a running loop although nothing on that path shows that the head of the queue after the insert is another item than the one inserted: an item that became the head (e.g. a non-head key replaced by an earlier time) waits for the previous head's timer and runs late"
+					}
 				}
 			}
 		}
@@ -1306,6 +1365,11 @@ func c06Enqueue(c *Ctx, ro *c06Roles) {
 		return
 	}
 	r.Check(okReset, c06Prefix+"Q6-enqueue", "events/queue.Processor.Enqueue reset", pos, "head change is signalled to a running loop", "Enqueue has no path on which, finding the loop already running, it posts the reset signal under the lock: an earlier item waits for the previous head's timer")
+	if silentBad == "" && silentUnk != "" {
+		r.Undecide("Q6: %s", silentUnk)
+	} else {
+		r.Check(silentBad == "", c06Prefix+"Q6-enqueue", "events/queue.Processor.Enqueue silent only if head unchanged", pos, "every path that leaves a running loop unsignalled has seen, after the insert and under the lock, that the head is not the inserted item", silentBad)
+	}
 }
 
 // ---------------------------------------------------------------- Q7
@@ -1330,6 +1394,7 @@ func c06Order(c *Ctx, ro *c06Roles) {
 		undecided("no heap.Interface implementation (Less/Swap/Push/Pop) found in events/queue")
 	}
 	root := ro.t.Root(less)
+	c06LessCoarse = ""
 	rel, n := 0, 0
 	unknown := false
 	allInstrs(less, func(in ssa.Instruction) {
@@ -1351,11 +1416,17 @@ func c06Order(c *Ctx, ro *c06Roles) {
 	construct := "events/queue heap Less"
 	switch {
 	case n == 0 || unknown || rel == 0:
-		r.Undecide("%s: the comparison returned by %s is not one of the recognised forms (Before/After/Compare/Sub/Unix* of the two items' ScheduledTime())", construct, FuncName(p, less))
+		r.Undecide("%s: the comparison returned by %s is not one of the recognised forms (Before/After/Compare/Sub/UnixNano of the two items' ScheduledTime())", construct, FuncName(p, less))
+	case c06LessCoarse != "":
+		r.Violation(c06Prefix+"Q7-order", construct, p.Pos(less.Pos()), "Less compares the scheduled times through "+c06LessCoarse+"(), which truncates: items due within the same unit compare equal, so an item due earlier than the head does not move to the front (and triggers no reset); it runs after the later item, late by up to that unit")
 	default:
 		r.Check(rel > 0, c06Prefix+"Q7-order", construct, p.Pos(less.Pos()), "min-heap on ScheduledTime", "Less is no longer 'item i is scheduled before item j': the head of the queue is not the earliest item and callbacks run out of scheduled-time order")
 	}
 }
+
+// c06LessCoarse is set by c06LessRel when the comparison goes through a
+// truncating accessor (not order-isomorphic to the instant).
+var c06LessCoarse string
 
 // c06LessRel: +1 if v true means time(i) <(=) time(j), -1 if it means the
 // opposite, 0 if not recognised.
@@ -1407,6 +1478,10 @@ func c06LessRel(t *evFrames, f *evFrame, v ssa.Value, fn *ssa.Function, depth in
 			case len(call.Call.Args) == 2 && (callIs(call, "time", "Time", "Compare") || callIs(call, "time", "Time", "Sub")):
 				return call.Call.Args[0], call.Call.Args[1], 2
 			case len(call.Call.Args) == 1 && strings.HasPrefix(evCalleeName(call), "Unix") && callIs(call, "time", "Time", evCalleeName(call)):
+				if evCalleeName(call) != "UnixNano" {
+					// Unix / UnixMilli / UnixMicro truncate: instants within one unit compare equal
+					c06LessCoarse = evCalleeName(call)
+				}
 				return call.Call.Args[0], nil, 1
 			}
 			return nil, nil, 0
